@@ -141,6 +141,16 @@ class C03(Check):
 
     def judge(self, out, o, v, valid, rays, w, label, stated_invalid):
         ps = GL.parax_sys(v)
+        if valid:
+            # a lens without power (after an edit, or an image F-number on an afocal system) has no finite entrance pupil
+            # diameter: there is no pupil point to aim at
+            try:
+                ok = math.isfinite(float(ps.EPD(v['ap']['type'], v['ap']['value']))) and math.isfinite(float(ps.EPL()))
+            except (ZeroDivisionError, OverflowError, ValueError):
+                ok = False
+            if not ok:
+                out.cls('pupil_not_finite')
+                return False
         Hy = np.array([r[0] for r in rays], dtype=float)
         Px = np.array([r[1] for r in rays], dtype=float)
         Py = np.array([r[2] for r in rays], dtype=float)
